@@ -56,7 +56,9 @@ static int init_line_being_generated;
  *       'i' __INIT placed (a=base address, b=size), 'e' final program (a=program size),
  *       'f' save_file_info (a=file id, b=lines), 'a' add_program_file (a=file id, s=name)
  *       'r' like 's', but called by i_generate___INIT() while it generates the line numbers of the moved
- *           initialiser code (a=line, b=code address in A_PROGRAM) */
+ *           initialiser code (a=line, b=code address in A_PROGRAM)
+ *       'n' i_generate_node() visits a parse node (a=line of the node, b=code address, c=current block),
+ *       'N' its line has been dealt with (a switch_to_line reported in between was made for this node) */
 void (*verif_line_hook) (int kind, long a, long b, long c, const char *s) = 0;
 static int verif_init_replay = 0;
 #endif
@@ -482,8 +484,16 @@ void i_generate_node (parse_node_t * expr) {
   if (!expr)
     return;
 
+#ifdef NEOLITH_VERIF
+  if (verif_line_hook)
+    verif_line_hook ('n', (long) expr->line, (long) CURRENT_PROGRAM_SIZE, (long) current_block, 0);
+#endif
   if (expr->line && expr->line != (current_block == A_INITIALIZER ? init_line_being_generated : line_being_generated))
     switch_to_line (expr->line);
+#ifdef NEOLITH_VERIF
+  if (verif_line_hook)
+    verif_line_hook ('N', 0, 0, 0, 0);	/* a switch_to_line call reported between 'n' and 'N' was made for this node */
+#endif
   switch (expr->kind)
     {
     case NODE_TERNARY_OP:
